@@ -164,6 +164,12 @@ def scenario_for(seed, index, tier):
         # no status connection is expected: the first TCP connection is the
         # login connection
         sc['server']['conns'] = sc['server']['conns'][1:]
+    if call == 'connect' and not single and rng.random() < 0.1:
+        # the TCP connect for the login connection (the second one) is
+        # refused: that is an error to report, not a reason to try the
+        # default version
+        sc['refuse_login'] = True
+        sc['net']['refuse'] = [1]
     if allowed_protos is not None and len(allowed_protos) == 1 and \
             rng.random() < 0.5:
         # the same object has already been used for a whole session (with
@@ -249,6 +255,9 @@ def reference(scenario):
             else:
                 err = ('VersionMismatch', p, obj['version'].get('name'),
                        p in sup)
+    if login is not None and scenario.get('refuse_login'):
+        login = None
+        err = ('ConnectionRefused',)
     if login is not None:
         conns.append({'proto': login, 'next': 2})
     exp['conns'] = conns
@@ -483,6 +492,12 @@ def check(scenario, w, st, res):
                         not is_sup and (says_allowed or not says_unsup):
                     V.append(('C09/mismatch-wording',
                               {'msg': msg, 'supported': is_sup}))
+            elif e[0] == 'ConnectionRefused':
+                ob()
+                res.probes['login-connect-refused'] = 1
+                if not isinstance(got, ConnectionRefusedError):
+                    V.append(('C09/refused-login-connect-misreported',
+                              repr(got)[:160]))
             else:
                 ob()
                 if not isinstance(got, OSError) or \
@@ -559,6 +574,11 @@ def check(scenario, w, st, res):
 
 
 def shrink_scenario(sc):
+    if sc.get('refuse_login'):
+        c = copy.deepcopy(sc)
+        c.pop('refuse_login')
+        c['net']['refuse'] = []
+        yield c
     if sc.get('prior'):
         c = copy.deepcopy(sc)
         n = c.pop('prior')['conns']
